@@ -61,6 +61,11 @@ def pwl_fn_events(tf, tfl, ctx, rng, n, with_layer=True):
     kin = rng.uniform(-mag, mag, size=(B, units, K - 2)).astype(np.float32)
     kout = rng.uniform(-mag, mag, size=(B, units, psize)).astype(np.float32)
     # the same parameters for every example, so that examples differ in x only (pairs for monotonicity)
+    if j % 3 != 2 and K >= 4:
+      # one interior segment collapsed to length exactly 0 (softmax underflow), everything else ordinary: the function
+      # has a jump there, and every input to its right must still see the full increment of that segment
+      kin = rng.uniform(-1, 1, size=kin.shape).astype(np.float32)
+      kin[:, :, int(rng.integers(0, K - 3))] = -200.0
     kin[:] = kin[0]
     kout[:] = kout[0]
     xs = np.concatenate([[float(imin), float(imax)], rng.integers(int(imin * XDEN) - 32, int(imax * XDEN) + 33, size=B - 2) / float(XDEN)])
@@ -84,8 +89,15 @@ def pwl_fn_events(tf, tfl, ctx, rng, n, with_layer=True):
       # differ by more than ~16): the end point of such a segment cannot be represented, see the known finding
       dl = deltas[0, u]
       res = 8 * 1.2e-7 * max(1.0, abs(float(imin)), abs(float(imax)))
+      fin = common.all_finite(list(dl))
+      kps = float(imin) + np.concatenate([[0.0], np.cumsum(dl)]) if fin else np.zeros(1)
       site = {"layer": "pwl_calibration_fn",
-              "sub_resolution_segment": bool(common.all_finite(list(dl)) and float(np.min(dl)) < res)}
+              "sub_resolution_segment": bool(fin and float(np.min(dl)) < res),
+              # the two ways the known finding shows: an end segment below resolution (the clamp / cyclic end value
+              # is not reached) and a probe sitting on the left end of a collapsed segment (0/0)
+              "end_segment_sub_resolution": bool(fin and (float(dl[0]) < res or float(dl[-1]) < res)),
+              "probe_on_collapsed_keypoint": bool(fin and any(float(dl[i]) < res and np.any(np.abs(xs - kps[i]) <= res)
+                                                             for i in range(len(dl))))}
       layer_out = []
       if with_layer:
         # C14: a PWLCalibration layer holding the derived keypoints and kernel
@@ -225,7 +237,7 @@ def run(ctx):
   ctx.exhaustive = True
   rng = np.random.default_rng(ctx.seed + 1515)
   q = ctx.quick
-  events = pwl_fn_events(tf, tfl, ctx, rng, 128 if q else 2000, with_layer=False) + form_events(tf, ctx) \
+  events = pwl_fn_events(tf, tfl, ctx, rng, 192 if q else 2400, with_layer=False) + form_events(tf, ctx) \
       + cdf_events(tf, tfl, ctx, rng, 60 if q else 900, with_fn=False, trained=24 if q else 160)
   log("  %d events" % len(events))
   ctx.sample({k: events[0].get(k) for k in ("ev", "c", "deltas", "kern", "xs", "outs", "den", "oden")})
